@@ -808,7 +808,7 @@ func ruleHeadersOnce(c *Ctx, rule string) {
 		}
 		for _, f := range boolFactsAt(e.Send) {
 			if u, ok := f.V.(*ssa.UnOp); ok && u.Op == token.MUL && !f.True {
-				if r, _, ok := fieldOfAddr(u.X); ok && a.SS != nil && r.Type == a.SS.Obj().Name() && u.Parent() == parent {
+				if r, _, ok := fieldOfAddr(u.X); ok && a.SS != nil && r.Type == a.SS.Obj().Name() && (u.Parent() == parent || regionRoot(u.Parent()) == parent) {
 					capLoad, flag = u, r
 				}
 			}
@@ -882,9 +882,27 @@ func ruleHeadersBeforeData(c *Ctx, rule string) {
 			c.ok(rule, key, w.At(s), "every path to the sender passes the header emit")
 			continue
 		}
-		// allow the bypass only via the true edge of an SS bool flag
+		// allow the bypass only via the true edge of an SS bool flag (the test may sit in a helper such as
+		// ensureHeadersSentLocked: edges inside virtually inlined helpers are cut the same way)
 		okBypass := false
 		var flagName string
+		flagTrueEdge := func(pred, sc *ssa.BasicBlock) bool {
+			ef, has := edgeFact(pred, sc)
+			if !has {
+				return false
+			}
+			nf := normFact(ef)
+			if fr, _, isF := loadedField(origin(nf.Cond)); isF && fr.Type == a.SS.Obj().Name() && nf.True {
+				if bt, isB := nf.Cond.Type().Underlying().(*types.Basic); isB && bt.Kind() == types.Bool {
+					flagName = fr.String()
+					return true
+				}
+			}
+			return false
+		}
+		if pathAvoidingE(fn, nil, func(in ssa.Instruction) bool { return in == s }, isHelper, flagTrueEdge) == nil && flagName != "" {
+			okBypass = true
+		}
 		for _, b := range fn.Blocks {
 			ifi, ok := b.Instrs[len(b.Instrs)-1].(*ssa.If)
 			if !ok {
